@@ -603,6 +603,19 @@ func genRH(r *vh.Rand) string {
 			m[0] = []byte{0, 3, 5, 21, 23, 24, 255, 1, 2, 11, 13, 15, 20}[r.Intn(13)]
 		}
 	}
+	if r.Chance(1, 3) { // one or two more messages behind it (kept by the reader, rendered only after all were read)
+		for i := r.Range(1, 2); i > 0; i-- {
+			k2 := kinds[r.Intn(len(kinds))]
+			if strings.HasPrefix(k2, "cr") || strings.HasPrefix(k2, "cv") {
+				k2 = k2[:2] + map[bool]string{true: "1", false: "0"}[tls12]
+			}
+			fl2, _ := parseFields(k2, genFields(r, k2))
+			m2, _ := bfe_tls.VerifC45Marshal(k2, fl2)
+			if len(m2) < 3000 {
+				m = append(append([]byte(nil), m...), m2...)
+			}
+		}
+	}
 	if len(m) > 40000 {
 		m = m[:40000]
 	}
